@@ -93,7 +93,17 @@ Definition handshake (skip : bool) (k : kx) (f : server_facts) (mode : N) (c : c
       (* raised by the server when it reads the client's Finished (RSA key transport without the
          key, DHE signature altered in flight under InsecureSkipVerify): its checks of the
          client's certificate come first *)
-      match server_judges mode k c with Done => Abort a false cd | o => o end
+      match server_judges mode k c with
+      | Done => Abort a false cd
+      | Abort a2 b2 cd2 =>
+          (* RSA key transport without the key: the server may already fail on the
+             ClientKeyExchange (ciphertext not below its modulus), i.e. before it looks at the
+             client's CertificateVerify; only the certificate checks surely come first *)
+          match k with
+          | KxRSA => if a2 =? AlertBadCertificate then Abort a2 b2 cd2 else Abort a false cd
+          | _ => Abort a2 b2 cd2
+          end
+      end
   | o => o
   end.
 
